@@ -176,6 +176,13 @@ def set_equals(eng, s, a, b):
     h = s.heap
     s.assume(*h.dict_wf(a.ref))
     s.assume(*h.dict_wf(b.ref))
+    # one side with a concrete small number of concrete members: |x| == n and every member present
+    # (equivalent by the representation invariant: keys <-> positions is a bijection)
+    for x, y in ((a, b), (b, a)):
+        n = smt.simp(h.dlen(y.ref))
+        if z3.is_int_value(n) and n.as_long() <= 4:
+            members = [smt.simp(z3.Select(h.dkeys(y.ref), j)) for j in range(n.as_long())]
+            return z3.And(h.dlen(x.ref) == n, *[h.dhas(x.ref, m) for m in members])
     k = z3.Const("se_k", Val)
     return z3.ForAll([k], h.dhas(a.ref, k) == h.dhas(b.ref, k))
 
@@ -300,7 +307,13 @@ def class_attr(eng, pycls, name, s):
             return BoundMeth(ClassRef(pycls), name, f)
         return f      # staticmethod or plain function accessed on the class
     if eng.reg.is_class_var(cname, name):
-        return SV(s.heap.get_field(CLASS_OBJ(cname), name), eng.reg.field_ty(cname, name))
+        val = s.heap.get_field(CLASS_OBJ(eng.reg.class_var_owner(cname, name)), name)
+        fty = eng.reg.field_ty(cname, name)
+        s.assume(z3.Implies(is_ref(val), z3.And(get_ref(val) >= 0, get_ref(val) < s.heap.alloc)))
+        eng.field_closed(s, name)
+        if fty is not None:
+            s.assume(eng.ty_cond(SV(val, None), fty))
+        return SV(val, fty)
     if hasattr(pycls, name):
         return eng.wrap_python(getattr(pycls, name), name)
     raise Unsupported(f"class attribute {cname}.{name}")
@@ -316,7 +329,12 @@ def obj_attr(eng, v, cls, name, s):
     if reg.has_field(cls, name):
         val = s.heap.get_field(v.ref, name)
         s.assume(z3.Implies(is_ref(val), z3.And(get_ref(val) >= 0, get_ref(val) < s.heap.alloc)))
-        return [(SV(val, reg.field_ty(cls, name)), s)]
+        eng.field_closed(s, name)
+        fty = reg.field_ty(cls, name)
+        if fty is not None:
+            # declared attribute types are class invariants: established by every write (see setattr_)
+            s.assume(eng.ty_cond(SV(val, None), fty))
+        return [(SV(val, fty), s)]
     if reg.is_class_var(cls, name):
         return [(SV(s.heap.get_field(CLASS_OBJ(reg.class_var_owner(cls, name)), name), reg.field_ty(cls, name)), s)]
     prop = reg.property_of(cls, name)
@@ -324,6 +342,16 @@ def obj_attr(eng, v, cls, name, s):
         return call_value(eng, BoundMeth(v, name, prop), [], {}, s)
     f = reg.method(cls, name)
     if f is not None:
+        raw = None
+        pc = reg.pyclass(cls)
+        for kls in (pc.__mro__ if pc is not None else ()):
+            if name in kls.__dict__:
+                raw = kls.__dict__[name]
+                break
+        if isinstance(raw, staticmethod):
+            return [(f, s)]
+        if isinstance(raw, classmethod):
+            return [(BoundMeth(ClassRef(pc), name, f), s)]
         return [(BoundMeth(v, name, f), s)]
     k = reg.class_kind(cls)
     if k:
@@ -379,7 +407,11 @@ def setattr_(eng, obj, name, v, s):
             return []
         raise Unsupported(f"unknown field {cls}.{name}")
     eng.check_write(s, obj.ref, "fld:" + name)
-    s.heap = s.heap.set_field(obj.ref, name, eng.as_val(s, v).t)
+    newv = eng.as_val(s, v)
+    fty = eng.reg.field_ty(cls, name)
+    if fty is not None and newv.ty != fty:
+        eng.oblige(f"{eng.qual}.fieldtype.{cls}.{name}@L{eng.cur_line}", s, eng.ty_cond(SV(newv.t, None), fty), "frame")
+    s.heap = s.heap.set_field(obj.ref, name, newv.t)
     return [s]
 
 
